@@ -19,7 +19,7 @@ RULE = ('Hypothesis-generated function bodies (ordinary / you / defeat flavour; 
         'conditions, for(;;), counted for loops, break/continue at any depth including inside try bodies, handlers and '
         'preempt blocks, returns, !is_defeat(), !truth_is_defeat, calls of user defeat functions (as statements and inside '
         'expressions), all_is_win(), all_is_broken(), user overloads that share those names but return, try/undo, try/stop, '
-        'preempt; print probes after every construct. '
+        'preempt, local declarations the compiler can dissolve (const with literal initialiser); print probes after every construct. '
         'Each function is followed in the output by a tell-tale function and is called on several argument vectors; in a quarter of the cases @is_you also calls itself once (a nested activation of the entry point must return to its caller). '
         'Oracles: (i) accepted programs: a replay monitor flags any sequential flow from the code of one function into the '
         'first instruction of another, and the committed event stream must equal the reference interpreter\'s (dropped code '
@@ -109,7 +109,7 @@ class G:
                 opts += [(6, 'is_defeat'), (6, 'truth'), (6, 'dcall'), (7, 'dcall_expr'), (7, 'preempt')]
         if self.flavor == '@' and not self.in_try:
             opts += [(12, 'try')]
-        opts += [(2, 'terminal'), (3, 'array'), (4, 'fake_terminal')]
+        opts += [(2, 'terminal'), (3, 'array'), (4, 'fake_terminal'), (5, 'local_const')]
         total = sum(w for w, _ in opts)
         r = self.i(0, total - 1)
         for w, k in opts:
@@ -118,6 +118,19 @@ class G:
             r -= w
         if k == 'tag':
             return [self.tag()]
+        if k == 'local_const':
+            # a local declaration the compiler may dissolve completely (const with a literal initialiser, or an unused plain
+            # local): whatever follows it in the block must still be generated
+            self.counters += 1
+            nm = 'k%d' % self.counters
+            ty, lit_ = self.pick([(INT, Lit('int', 2, None, t=INT)), (BYTE, Lit('char', 66, None, t=BYTE)), (BOOL, Lit('bool', True, None, t=BOOL)),
+                                   (STRING, Lit('string', b'kk', None, t=STRING)), (INT, Bin('+', Lit('int', 1, None, t=INT), Lit('int', 2, None, t=INT), t=INT))])
+            const = self.i(0, 3) != 0
+            out = [Decl(ty, const, nm, lit_)]
+            if self.i(0, 1):
+                shown = Var(nm, t=ty)
+                out.append(ExprStmt(Call('write', [Is(shown, INT, t=INT) if ty == BYTE else shown], t=EMPTY)))
+            return out + [self.tag()]
         if k == 'if':
             return [If(self.cond(), self.block(self.i(1, 3)), None), self.tag()]
         if k == 'ifelse':
